@@ -2,7 +2,7 @@
 # usage: tools/seedcheck.sh <PROP>-<VARIANT> [CHECKPROP...]   (re-run checks against an already verified seeded change)
 set -u
 # /repo's working tree is shared with every other check run: serialise on a lock
-if [ -z "${REPO_LOCK_HELD:-}" ]; then exec env REPO_LOCK_HELD=1 flock /var/tmp/repo.lock "$0" "$@"; fi
+if [ -z "${REPO_LOCK_HELD:-}" ]; then exec env REPO_LOCK_HELD=1 /verif/tools/withrepo.sh exclusive "$0" "$@"; fi
 S=$1; shift
 P=${S%%-*}
 CHECKS=${@:-$P}
